@@ -3,6 +3,8 @@ package index
 import (
 	"encoding/json"
 	"os"
+
+	"github.com/ipld/go-storethehash/store/verifhook"
 )
 
 // Header contains information about the index. This is actually stored in a
@@ -56,5 +58,6 @@ func writeHeader(headerPath string, header Header) error {
 	if err = os.WriteFile(tmpPath, data, 0o666); err != nil {
 		return err
 	}
+	verifhook.At("index.header.tmp_written")
 	return os.Rename(tmpPath, headerPath)
 }
